@@ -52,6 +52,16 @@ func TermNames() []string {
 	return out
 }
 
+// PristineColors is the colour count of a built-in entry as the database
+// ships it (before any lookup had a chance to touch the entry).
+func PristineColors(name string) int {
+	loadTerms()
+	if p := byName[name]; p != nil {
+		return p.Colors
+	}
+	return 0
+}
+
 // AllNames returns every registered name and alias.
 func AllNames() []string { loadTerms(); return allNames }
 
